@@ -396,7 +396,7 @@ impl<'a> Checker<'a>
         let ev = self.trace.get(self.pos);
         if let Some(Ev::Panic(msg)) = ev
         {
-            fail!(self, "C18", "panic", &["C02", "C03", "C11", "C12"], "panic: {msg}");
+            fail!(self, "C18", "panic", &["C02", "C03", "C07", "C10", "C11", "C12"], "panic: {msg}");
         }
         if let (Some(id), Some(e)) = (self.pending_immediate_drop, ev)
         {
